@@ -35,7 +35,15 @@ fn label(i: usize) -> Label {
 }
 
 // ---- clustered TCP generator ------------------------------------------------------------------
-const LAYOUTS: [&[OptS]; 4] = [&[OptS::Mss], &[OptS::Mss, OptS::Sok, OptS::Ts, OptS::Nop, OptS::Ws], &[OptS::Mss, OptS::Nop, OptS::Ws, OptS::Nop, OptS::Nop, OptS::Sok], &[OptS::Mss, OptS::Nop, OptS::Nop, OptS::Sok, OptS::Eol(1)]];
+/// few layouts (so that index buckets collide), together covering every option kind of the vocabulary
+const LAYOUTS: [&[OptS]; 6] = [
+    &[OptS::Mss],
+    &[OptS::Mss, OptS::Sok, OptS::Ts, OptS::Nop, OptS::Ws],
+    &[OptS::Mss, OptS::Nop, OptS::Ws, OptS::Nop, OptS::Nop, OptS::Sok],
+    &[OptS::Mss, OptS::Nop, OptS::Nop, OptS::Sok, OptS::Eol(1)],
+    &[OptS::Mss, OptS::Nop, OptS::Nop, OptS::Sack, OptS::Unknown(30)],
+    &[OptS::Sack, OptS::Sok, OptS::Unknown(0), OptS::Eol(0)],
+];
 const QLISTS: [&[u8]; 4] = [&[], &[0, 1], &[0], &[0, 1, 3]];
 
 pub fn clustered_tcp_sig() -> impl Strategy<Value = TcpSigS> {
@@ -46,7 +54,7 @@ pub fn clustered_tcp_sig() -> impl Strategy<Value = TcpSigS> {
         prop_oneof![2 => Just(None), 1 => Just(Some(1460u16)), 1 => Just(Some(1380u16))],
         prop_oneof![2 => Just(WinS::Any), 1 => Just(WinS::Mss(4)), 1 => Just(WinS::Mss(10)), 1 => Just(WinS::Value(8192)), 1 => Just(WinS::Mod(1024)), 1 => Just(WinS::Mtu(2))],
         prop_oneof![2 => Just(None), 1 => Just(Some(7u8)), 1 => Just(Some(0u8))],
-        0usize..4,
+        0usize..6,
         0usize..4,
         0u8..3,
     )
